@@ -52,6 +52,7 @@ def alphabet(root, full=True):
     A.append(("initialized", "initialized", {}, False))
     A.append(("unknown_req", "fortls/doesNotExist", {"x": 1}, True))
     A.append(("unknown_note", "fortls/doesNotExist", {"x": 1}, False))
+    A.append(("unknown_req_unicode", "fortls/\u00fcberpr\u00fcfen\u20ac\U0001F600", {"x": "\u00e9"}, True))
     A.append(("exit_note", "exit", MISSING, False))
     A.append(("shutdown", "shutdown", MISSING, True))
     A.append(("cancel", "$/cancelRequest", {"id": 1}, False))
